@@ -43,15 +43,22 @@ from harness.engine_suites import COMPLETE, CONTINUABLE, HALT, Runner, Trace, pa
 # Signatures (without the `synth:<prop>:` prefix) that fire on the UNCHANGED tree, were adjudicated as real engine defects
 # and wait for a decision: the oracle stays, the REPORTING is off unless VERIF_SYNTH_PENDING=1.  fnmatch patterns.
 PENDING: list[str] = [
-    # P1 (pause dimension; C05, C17)  CompleteWorkflow handled while the workflow row is PAUSED computes SUCCEEDED / TERMINAL and calls
-    #     set_workflow_status: PAUSED -> SUCCEEDED / TERMINAL is not in the transition table, InvalidStateTransitionError on every
-    #     delivery, the message ends in the DLQ (complete_workflow.py, on_execution; models/status.py PAUSED row).  After store.resume()
-    #     nothing is left to finish the workflow: RUNNING with every stage settled, queue empty; a canceled one never becomes final.
-    #     Proposed: proposed_fixes/P1-completeworkflow-finishes-a-paused-workflow.proposed.diff
-    "pause:C05:wedged:CW-dead-lettered:InvalidStateTransitionError-while-workflow-PAUSED",
-    "pause:C17:cancel-not-final:RUNNING@CW-dead-lettered:InvalidStateTransitionError-while-workflow-PAUSED",
-    "pause:C17:cancel-not-final:PAUSED@CW-dead-lettered:InvalidStateTransitionError-while-workflow-PAUSED",
+    # R1 (restart dimension, C05)  RestartStageHandler resets the restarted stage and its tasks only (handlers/workflow_control.py,
+    #     `reset_stage_for_retry(stage)`), not its synthetic children (JumpToStage does: _synthetic_reset_mutations).  The re-run
+    #     parent pushes StartStage for before-stages that are already complete - dropped - and nothing ever continues it: RUNNING until
+    #     the CompleteWorkflow re-polls spend the wait budget and fail the workflow.  Proposed: proposed_fixes/R1-...proposed.diff
+    "restart:C05:stuck-until-wait-budget:restarted-parent-children-not-reset",
+    "restart:C05:wedged:restarted-parent-children-not-reset",
 ]
+# P1 (F57 05c2357) was gated here until it was repaired; reported again since then:
+#   # P1 (pause dimension; C05, C17)  CompleteWorkflow handled while the workflow row is PAUSED computes SUCCEEDED / TERMINAL and calls
+#   #     set_workflow_status: PAUSED -> SUCCEEDED / TERMINAL is not in the transition table, InvalidStateTransitionError on every
+#   #     delivery, the message ends in the DLQ (complete_workflow.py, on_execution; models/status.py PAUSED row).  After store.resume()
+#   #     nothing is left to finish the workflow: RUNNING with every stage settled, queue empty; a canceled one never becomes final.
+#   #     Proposed: proposed_fixes/P1-completeworkflow-finishes-a-paused-workflow.proposed.diff
+#   "pause:C05:wedged:CW-dead-lettered:InvalidStateTransitionError-while-workflow-PAUSED",
+#   "pause:C17:cancel-not-final:RUNNING@CW-dead-lettered:InvalidStateTransitionError-while-workflow-PAUSED",
+#   "pause:C17:cancel-not-final:PAUSED@CW-dead-lettered:InvalidStateTransitionError-while-workflow-PAUSED",
 # S11 (F53 a49b63f), S12 (F54 c44ff70), S13 (F55 9677b69) were gated here until they were repaired; reported again since then:
 #   # S11 (C17)  CancelStage for a stage that is already complete returns at once and fans out to nobody (cancel_stage.py, the
 #   #     "already complete" early return; F49 added the fan-out only behind it).  A parent that failed through ONE before / after-stage
@@ -172,6 +179,16 @@ class SRunner(Runner):
     for ever; here it is retried max_attempts times, then op `q` runs the REAL check_and_move_expired()."""
 
     def apply(self, op: tuple) -> None:
+        if op[0] == "R":
+            # operator restart of stage op[1] (Engine.restart_stage = Orchestrator.restart -> RestartStage)
+            self.e.restart_stage(op[1])
+            t = self.t
+            t.ops.append(f"R{op[1]}")
+            t.outcomes.append("ok")
+            t.op_msg.append(None)
+            t.op_inner.append([])
+            self._record(None)
+            return
         if op[0] in ("p", "u", "r"):
             # operator pause / unpause / resume (Engine.pause / unpause / resume = store.pause, Orchestrator.unpause, store.resume)
             {"p": self.e.pause, "u": self.e.unpause, "r": self.e.resume}[op[0]]()
@@ -200,7 +217,9 @@ class SRunner(Runner):
 
 
 def s_apply_str(r: SRunner, o: str) -> None:
-    if o in ("q", "p", "u", "r"):
+    if o[0] == "R":
+        r.apply(("R", int(o[1:])))
+    elif o in ("q", "p", "u", "r"):
         r.apply((o,))
     else:
         es._apply_str(r, o)
@@ -332,6 +351,16 @@ def s_wedge_cause(t: Trace, fin: dict, lay: Lay) -> str:
         dl = dead_letters(t)
         if dl:
             return dl[0][0]          # the message that would have driven the workflow on was lost to the DLQ
+    if t.meta.get("restart"):
+        for k_, m_ in enumerate(t.op_msg):
+            if m_ and m_.startswith("RR.") and t.audit_len[k_ + 1] > t.audit_len[k_]:
+                p_ = int(m_.split(".")[1])
+                after_rr = parse_line(t.lines[k_ + 1])
+                if p_ < lay.n and any(after_rr["stages"][c]["status"] != "NOT_STARTED" for c in lay.children_of(p_)) \
+                        and fin["stages"][p_]["status"] in ("RUNNING", "NOT_STARTED"):
+                    # RestartStage re-armed the parent and its tasks but left its synthetic children as they were: the re-run
+                    # parent starts children that are already complete, their StartStage is dropped, nobody continues the parent
+                    return "restarted-parent-children-not-reset"
     for p in range(lay.n):
         a = fin["stages"][p]
         if a["status"] != "RUNNING" or not lay.children_of(p):
@@ -731,18 +760,66 @@ def dead_letters(t: Trace) -> list[tuple[str, str]]:
     return out
 
 
+def pmon_final(t: Trace) -> list[tuple[str, str]]:
+    """a durable FINAL workflow status never changes (whoever writes: a handler, or the operator calls store.pause / store.resume)"""
+    for k, op, msg, (ent, old, new) in es.audit_by_op(t):
+        if ent == "W" and old in COMPLETE:
+            return [(f"final-workflow-status-changed:{old}>{new}", f"the workflow row went {old} -> {new} by {msg or op} (op #{k + 1})")]
+    return []
+
+
+def _restart_exempt(t: Trace, k: int, ent: str, old: str, new: str) -> bool:
+    """the property's own exception: what the RestartStage delivery ITSELF writes - the restarted stage and its tasks back to
+    NOT_STARTED, a completed workflow back to RUNNING - is allowed; everything else is judged as before"""
+    m = t.op_msg[k] or ""
+    if not m.startswith("RR."):
+        return False
+    si = m.split(".")[1]
+    if ent == "W":
+        return old in COMPLETE and new == "RUNNING"
+    if new != "NOT_STARTED":
+        return False
+    own = {int(si)} | set(Lay(t.spec).children_of(int(si)))          # the stage, and the synthetic children that belong to it
+    return (ent[0] == "S" and ent[1:].isdigit() and int(ent[1:]) in own) or (ent[0] == "T" and "?" not in ent and int(ent[1:].split(".")[0]) in own)
+
+
+def rmon_c06(t: Trace) -> list[tuple[str, str]]:
+    """engine_suites.mon_c06 (every durable status change legal, completed is final) with the restart exception"""
+    hits = []
+    for k, op, msg, (ent, old, new) in es.audit_by_op(t):
+        if _restart_exempt(t, k, ent, old, new) or es.can_transition(old, new):
+            continue
+        kind = "completed-left" if old in COMPLETE else "illegal"
+        hits.append((f"{kind}:{ent[0]}:{old}>{new}:by:{(msg or op).split('.')[0]}", f"durable status change {ent} {old}->{new} by {msg or op} is not in the transition table"))
+    return hits[:1]
+
+
+def rmon_final(t: Trace) -> list[tuple[str, str]]:
+    """a durable final workflow status never changes - except through the RestartStage delivery that re-opens the workflow"""
+    for k, op, msg, (ent, old, new) in es.audit_by_op(t):
+        if ent == "W" and old in COMPLETE and not _restart_exempt(t, k, ent, old, new):
+            return [(f"final-workflow-status-changed:{old}>{new}:by:{(msg or op).split('.')[0]}", f"the workflow row went {old} -> {new} by {msg or op} (op #{k + 1})")]
+    return []
+
+
+# the operator restart dimension (signatures prefixed `restart:`)
+R_MONITORS = {
+    "C05": [smon_c05],
+    "C06": [rmon_c06, rmon_final],
+}
+
 # the pause / resume dimension (plain AND synthetic-stage workflows; signatures prefixed `pause:`)
 P_MONITORS = {
-    "C06": [es.mon_c06],
+    "C06": [es.mon_c06, pmon_final],
     "C05": [smon_c05, es.mon_c06],
     "C17": [smon_c17, es.mon_c06],
     "C18": [pmon_c18, es.mon_c06],
 }
-_BY_NAME = {m.__name__: m for ms in list(S_MONITORS.values()) + list(P_MONITORS.values()) for m in ms}
+_BY_NAME = {m.__name__: m for ms in list(S_MONITORS.values()) + list(P_MONITORS.values()) + list(R_MONITORS.values()) for m in ms}
 
 
 def monitors_for(prop: str, family: str):
-    return (P_MONITORS if family == "pause" else S_MONITORS)[prop]
+    return {"pause": P_MONITORS, "restart": R_MONITORS}.get(family, S_MONITORS)[prop]
 
 
 # --------------------------------------------------------------------------------------
@@ -1196,10 +1273,18 @@ def produce_pause(prop: str, rng: random.Random, wd: Path) -> dict:
         else:
             r.apply(("d", rid))
         step += 1
+    late_pause = False
+    if prop == "C06" and rng.random() < 0.3 and parse_line(r.t.lines[-1])["wf"] in COMPLETE:
+        # an operator pauses (and maybe resumes) a workflow that has ALREADY reached a final status
+        late_pause = True
+        r.apply(("p",))
+        if rng.random() < 0.6:
+            r.apply(("r",))
+        r.drain(None, "fifo", max_steps=50)
     t = r.finish()
     kinds = "".join(k_ for k_ in "pur" if k_ in t.ops)
     t.tag = (f"pause/{'synth' if lay.kids else 'plain'}/{mode}" + ("+cancel" if "c" in t.ops else "") + ("+signal" if any(o[0] == "g" for o in t.ops) else "")
-             + ("" if "p" in t.ops else ":never-paused") + ("" if unpaused or "p" not in t.ops else ":nobody-unpaused"))
+             + ("" if "p" in t.ops else ":never-paused") + ("" if unpaused or "p" not in t.ops else ":nobody-unpaused") + (":pause-after-final" if late_pause else ""))
     del kinds
     t.meta = dict(meta, pause={"unpaused": unpaused or "p" not in t.ops})
     t.respecting = True
@@ -1254,6 +1339,57 @@ def produce_pause_parked(prop: str, rng: random.Random, wd: Path) -> dict:
     return es.pack(t)
 
 
+def produce_restart(prop: str, rng: random.Random, wd: Path) -> dict:
+    """Operator restart dimension: plain (gen_spec w0 / w1, no jumps, no suspend) and synthetic-stage workflows; run to the drain
+    (70 %) or for k random steps, then 1-2 restarts (op R<i> = Orchestrator.restart) of a random COMPLETED top-level stage -
+    sometimes of a stage that is not completed (must be ignored) -, sometimes a cancel before / after (a restart inside a
+    canceled workflow must be refused), a few deliveries between the restarts, then a fifo | random drain."""
+    if rng.random() < 0.5:
+        spec = es.gen_spec(rng, rng.choice(["w0", "w1", "w1"]))
+    else:
+        spec = gen_synth_spec(rng, suspend=False, directed=rng.choice([None, None, "after", "before"]))
+    lay = Lay(spec)
+    r = SRunner(spec, wd)
+    mode = rng.choice(["fifo", "rand"])
+    prng = rng if mode == "rand" else None
+    k = None if rng.random() < 0.7 else rng.randint(0, 25)
+    cancel = rng.choice([None, None, None, "before", "after"])
+
+    def some(nsteps: int | None) -> None:
+        for _ in range(300 if nsteps is None else nsteps):
+            p = r.eligible(True)
+            if not p:
+                return
+            r.apply(("d", (rng.choice(p) if prng else p[0])[0]))
+
+    some(k)
+    if cancel == "before":
+        r.apply(("c",))
+        some(rng.choice([0, 2, None]))
+    kinds = []
+    for _ in range(rng.choice([1, 1, 2])):
+        fin = parse_line(r.t.lines[-1])
+        done = [i for i in range(lay.n) if fin["stages"][i]["status"] in COMPLETE]
+        other = [i for i in range(lay.n) if i not in done]
+        if other and (not done or rng.random() < 0.15):
+            i = rng.choice(other)
+            kinds.append("unfinished")
+        else:
+            i = rng.choice(done)
+            kinds.append("finished-wf" if fin["wf"] in COMPLETE else "running-wf")
+        r.apply(("R", i))
+        if rng.random() < 0.3:
+            some(rng.randint(1, 6))
+    if cancel == "after":
+        r.apply(("c",))
+    some(None)
+    t = r.finish()
+    t.tag = f"restart/{'synth' if lay.kids else 'plain'}/{mode}/{'+'.join(kinds)}" + (f"+cancel-{cancel}" if cancel else "")
+    t.meta = {"restart": True}
+    t.respecting = True
+    return es.pack(t)
+
+
 def _worker(args) -> dict:
     prop, seed, count, tier = args
     core.ensure_repo_on_path()
@@ -1266,7 +1402,9 @@ def _worker(args) -> dict:
     try:
         for j in range(count):
             try:
-                if prop.endswith(":pause"):
+                if prop.endswith(":restart"):
+                    out.append(produce_restart(prop.split(":")[0], rng, wd))
+                elif prop.endswith(":pause"):
                     base = prop.split(":")[0]
                     out.append(produce_pause_parked(base, rng, wd) if (base != "C18" and j % 3 == 2) else produce_pause(base, rng, wd))
                 elif prop == "C02":
@@ -1369,6 +1507,8 @@ def sym_ops(t: Trace) -> list[tuple]:
         elif kind == "g":
             a, b = o[1:].split(".")
             out.append(("g", int(a), b == "1"))
+        elif kind == "R":
+            out.append(("R", int(o[1:])))
         elif kind in "cwqpur":
             out.append((kind,))
     return out
@@ -1423,6 +1563,9 @@ def run_sym(spec: Spec, ops: list[tuple], wd: Path, drain: bool = True, settle: 
         elif kind == "g":
             if op[1] < len(r.e.stage_ids):
                 r.apply(("g", op[1], op[2]))
+        elif kind == "R":
+            if op[1] < len(r.e.stage_ids):
+                r.apply(("R", op[1]))
         else:
             r.apply((kind,))
     nprefix = len(r.t.ops)
@@ -1462,6 +1605,10 @@ def _remap_ops(ops: list[tuple], m: dict[int, int | None]) -> list[tuple]:
             new = m.get(op[1], op[1])
             if new is not None:
                 out.append(("g", new, op[2]))
+        elif op[0] == "R":
+            new = m.get(op[1], op[1])
+            if new is not None:
+                out.append(("R", new))
         else:
             out.append(op)
     return out
@@ -1685,12 +1832,14 @@ def run_for(ctx, prop: str, family: str = "synth") -> None:
     logging.disable(logging.CRITICAL)
     if family == "pause":
         total = {"C06": ctx.n(640, 3200), "C05": ctx.n(640, 3200), "C17": ctx.n(640, 3200), "C18": ctx.n(640, 3200)}[prop]
+    elif family == "restart":
+        total = {"C06": ctx.n(480, 2400), "C05": ctx.n(480, 2400)}[prop]
     else:
         total = {"C05": ctx.n(480, 1600), "C17": ctx.n(480, 3200), "C01": ctx.n(64, 64),
                  "C02": ctx.n(128, 800), "C10": ctx.n(40, 64), "C18": ctx.n(480, 3200)}[prop]
     nproc = min(16, max(1, os.cpu_count() or 1))
     per = max(1, total // nproc)
-    jobs = [(prop + (":pause" if family == "pause" else ""), f"{ctx.seed}:{i}", per, ctx.tier) for i in range(nproc)]
+    jobs = [(prop + ("" if family == "synth" else ":" + family), f"{ctx.seed}:{i}", per, ctx.tier) for i in range(nproc)]
     traces: list[Trace] = []
     errors = []
     with ProcessPoolExecutor(max_workers=nproc) as ex:
@@ -1705,7 +1854,7 @@ def run_for(ctx, prop: str, family: str = "synth") -> None:
     if family == "synth":
         traces = corpus(prop) + traces
     consume(ctx, prop, traces, family)
-    fam = ctx.extra.setdefault("synthetic_stage_family" if family == "synth" else "pause_resume_dimension",
+    fam = ctx.extra.setdefault({"synth": "synthetic_stage_family", "pause": "pause_resume_dimension", "restart": "restart_dimension"}[family],
                                {"model": "none (implementation-only monitors)", "traces": 0, "per_mode": {}, "wall_s": 0.0})
     fam["traces"] += len(traces)
     for t in traces:
@@ -1718,7 +1867,7 @@ def run_for(ctx, prop: str, family: str = "synth") -> None:
 
 def consume(ctx, prop: str, traces: list[Trace], family: str = "synth") -> None:
     mons = monitors_for(prop, family)
-    pfx = "pause" if family == "pause" else "synth"
+    pfx = family if family in ("pause", "restart") else "synth"
     report_pending = os.environ.get("VERIF_SYNTH_PENDING") == "1"
     wd = None
     seen_pending: Counter = Counter()
@@ -1726,7 +1875,12 @@ def consume(ctx, prop: str, traces: list[Trace], family: str = "synth") -> None:
         lay = Lay(t.spec)
         nontrivial = len(t.ops) >= 8 and (any(o[0] != "d" for o in t.ops) or t.ops != sorted(t.ops, key=lambda o: int(o[1:]) if o[1:].isdigit() else 0))
         ctx.count([pfx, t.spec.to_json(), t.ops], nontrivial=nontrivial)
-        if family == "pause":
+        if family == "restart":
+            ctx.tag("model-free:restart", "restart:sched:" + t.tag.split("/", 1)[-1], "restart:wf:" + t.final()["wf"], "restart:quiesced" if t.quiesced else "restart:cut")
+            for k_ in range(len(t.ops)):
+                if (t.op_msg[k_] or "").startswith("RR."):
+                    ctx.tag("restart:RestartStage:" + ("applied" if t.audit_len[k_ + 1] > t.audit_len[k_] else "ignored-or-refused"))
+        elif family == "pause":
             ctx.tag("model-free:pause-resume", "pause:sched:" + t.tag.split("/", 1)[-1], "pause:wf:" + t.final()["wf"],
                     "pause:quiesced" if t.quiesced else "pause:cut")
             for o in set(x for x in t.ops if x in ("p", "u", "r", "c")):
@@ -1776,7 +1930,7 @@ def consume(ctx, prop: str, traces: list[Trace], family: str = "synth") -> None:
                                            "monitor": mname, "signature": sig, "respecting": t.respecting, "meta": smeta, "tag": t.tag,
                                            "children": [{"index": slay.n + c, "parent": par, "owner": own} for c, (par, own, _) in enumerate(slay.kids)]})
     if traces:
-        ctx.sample({"suite": ("pause / resume dimension" if family == "pause" else "synthetic-stages") + " (implementation-only)",
+        ctx.sample({"suite": {"pause": "pause / resume dimension", "restart": "operator restart dimension"}.get(family, "synthetic-stages") + " (implementation-only)",
                     **{k: v for k, v in traces[0].to_json().items() if k != "spec_line"}})
     for sig, n in seen_pending.items():
         ctx.tag("synth-pending(not reported; VERIF_SYNTH_PENDING=1 reports it):" + sig)
@@ -1833,8 +1987,8 @@ def replay(ctx, body: dict) -> int:
         print(f"  start: {es.short(t.lines[0])}")
         for k, o in enumerate(t.ops):
             print(f"  op {k + 1}: {o:>6} [{t.op_msg[k]}] -> {es.short(t.lines[k + 1])}")
-        pfx = "pause" if (rp.get("meta") or {}).get("pause") is not None else "synth"
-        mons = [_BY_NAME[rp["monitor"]]] if rp.get("monitor") in _BY_NAME else (P_MONITORS if pfx == "pause" else S_MONITORS).get(rp.get("prop") or ctx.prop, [])
+        pfx = "pause" if (rp.get("meta") or {}).get("pause") is not None else ("restart" if (rp.get("meta") or {}).get("restart") else "synth")
+        mons = [_BY_NAME[rp["monitor"]]] if rp.get("monitor") in _BY_NAME else monitors_for(rp.get("prop") or ctx.prop, pfx)
         rc = 0
         for mname, sig, what in _signatures(t, mons):
             print(f"FAILS {mname}: {pfx}:{rp.get('prop') or ctx.prop}:{sig}: {what}")
@@ -1857,8 +2011,8 @@ def _cli() -> None:
     logging.disable(logging.CRITICAL)
     if sys.argv[1] == "sweep":
         prop, seed = sys.argv[2], sys.argv[3]
-        fam_ = "pause" if prop.endswith(":pause") else "synth"
-        total = int(sys.argv[4]) if len(sys.argv) > 4 else (640 if fam_ == "pause" else {"C05": 480, "C17": 480, "C01": 64, "C02": 128, "C10": 40, "C18": 480}[prop])
+        fam_ = prop.split(":")[1] if ":" in prop else "synth"
+        total = int(sys.argv[4]) if len(sys.argv) > 4 else (640 if fam_ == "pause" else 480 if fam_ == "restart" else {"C05": 480, "C17": 480, "C01": 64, "C02": 128, "C10": 40, "C18": 480}[prop])
         nproc = min(16, os.cpu_count() or 1)
         jobs = [(prop, f"{seed}:{i}", max(1, total // nproc), "quick") for i in range(nproc)]
         cnt: Counter = Counter()
@@ -1896,7 +2050,7 @@ def _cli() -> None:
     prop = sys.argv[1]
     spec = Spec.from_json(json.loads(sys.argv[2]))
     ops = sys.argv[3].split(",")
-    meta = json.loads(sys.argv[4]) if len(sys.argv) > 4 else ({"pause": {"unpaused": True}} if prop.endswith(":pause") else {})
+    meta = json.loads(sys.argv[4]) if len(sys.argv) > 4 else ({"pause": {"unpaused": True}} if prop.endswith(":pause") else {"restart": True} if prop.endswith(":restart") else {})
     prop = prop.split(":")[0]
     print(replay(type("C", (), {"prop": prop})(), {"kind_synth": True, "exact": True, "prop": prop, "spec": spec.to_json(), "ops": ops, "meta": meta}))
 
